@@ -49,9 +49,8 @@ Definition check (c : case) : outcome :=
      o_prop :=
        upload_consistent (i_status c) (i_after c)
        && (if c_delete c then delete_consistent (i_del_status c) (i_after_del c) else true)
-       && (if (c_fault c =? 1) || (c_fault c =? 2)
-           then negb (success (i_status c)) && (if c_delete c then negb (success (i_del_status c)) else true)
-           else true);
+       && (if (c_fault c =? 1) || (c_fault c =? 2) || (c_fault c =? 3) then negb (success (i_status c)) else true)
+       && (if ((c_fault c =? 1) || (c_fault c =? 2)) && c_delete c then negb (success (i_del_status c)) else true);
      o_trig := trigger u;
      o_nontrivial := success (i_status c) && existsb (fun v => so_state v =? 0) (tl (i_after c)) |}.
 
